@@ -534,12 +534,16 @@ enum Hist {
 }
 
 impl Hist {
+    /// kind of history; a function that fails one kind keeps being explored on the others
     fn family(&self) -> &'static str {
         match self {
             Hist::Split { .. } => "split",
             Hist::Merge { .. } => "merge",
             Hist::Slide { .. } => "slide",
-            Hist::Groups { .. } => "groups",
+            Hist::Groups { mode: GMode::Eval { .. }, .. } => "groups-eval",
+            Hist::Groups { mode: GMode::State { .. }, .. } => "groups-state",
+            Hist::Groups { mode: GMode::Parts { .. }, .. } => "groups-parts",
+            Hist::Groups { mode: GMode::Convert { .. }, .. } => "groups-convert",
         }
     }
 }
@@ -1491,6 +1495,7 @@ fn explore(ctx: &Ctx) {
     let sl_n1 = ctx.pick(3, 4);
     let sl_n2 = ctx.pick(3, 3);
     let null_filters = ctx.thorough();
+    let grp_small_top = ctx.quick();
     let max_emits = ctx.pick(1, 2);
     ctx.set_extra(
         "bounds",
@@ -1500,7 +1505,7 @@ fn explore(ctx: &Ctx) {
             "domain": "per type NULL + 3 ascending non-NULL values (Boolean: NULL,false,true); two-argument functions: (NULL,-0.5,1.0)^2",
             "accumulator_rows_max": {"one_column": acc_n1, "two_column": acc_n2},
             "accumulator_histories": "all cuts into batches; all assignments of batches to <= 2 partitions (+ optional empty partition); both merge orders; per-partition or concatenated merge_batch; optional relay accumulator",
-            "groups_rows_max": {"one_column": grp_n1, "two_column": grp_n2},
+            "groups_rows_max": {"one_column": grp_n1, "two_column": grp_n2, "note": if grp_small_top {"sequences of the maximal length use NULL + the first two domain values only"} else {"full domain at every length"}},
             "groups_histories": format!("all group-index vectors over <= 3 groups (first-seen numbering); filters: none, all T/F masks{}; all cuts; modes Eval/State with <= {max_emits} EmitTo::First, Parts (2 partitions, both merge orders), Convert(after = 0..batches)", if null_filters {" and all masks with NULL (rows <= 3; one NULL per position and <= 1 emit at 4 rows)"} else {", one NULL per position"}),
             "slide_rows_max": {"one_column": sl_n1, "two_column": sl_n2},
             "slide_histories": "all non-decreasing (lo,hi) window schedules with <= rows windows",
@@ -1561,11 +1566,21 @@ fn explore(ctx: &Ctx) {
                 ("slide", &sl_tab[n], if two { sl_n2 } else { sl_n1 }),
             ];
             for (fam, hists, lim) in fams {
-                if n > lim || dead.lock().unwrap().contains(&(*si, fam)) {
+                if n > lim {
                     continue;
                 }
+                if fam == "groups" && grp_small_top && n == lim && n >= 3 && rows.iter().any(|r| r.iter().any(|i| *i > 2)) {
+                    continue; // quick tier: the longest group histories draw from NULL + the first two values only
+                }
                 let mut fam_evals = 0u64;
+                let mut failed_kinds: Vec<&'static str> = vec![];
+                let dead_now: Vec<&'static str> =
+                    dead.lock().unwrap().iter().filter(|(i, _)| i == si).map(|(_, k)| *k).collect();
                 for (hi, h) in hists.iter().enumerate() {
+                    let kind = h.family();
+                    if dead_now.contains(&kind) || failed_kinds.contains(&kind) {
+                        continue;
+                    }
                     let mut r = Run { b, spec: s, rows, cache: &mut cache, calls: 0 };
                     let res = mc_core::catch(|| r.run(h)).unwrap_or_else(Err);
                     calls += r.calls;
@@ -1576,13 +1591,13 @@ fn explore(ctx: &Ctx) {
                             fam_evals += 1;
                             failures.lock().unwrap().push(Failure {
                                 spec_idx: *si,
-                                family: fam,
+                                family: kind,
                                 hist_idx: hi,
                                 rows: rows.clone(),
                                 hist: h.clone(),
                                 what,
                             });
-                            break; // simplest failing history of this input is enough
+                            failed_kinds.push(kind); // simplest failing history of this kind is enough for this input
                         }
                     }
                 }
